@@ -52,6 +52,17 @@ func c14Cases() []c14Prog {
 	add("object-in-loop", `@each(x in [{a: 1, b: 2}, {c: 3, d: 4}]){{ x }};@end`, nil)
 	add("object-concat-ternary", `{{ true ? {k: 1, j: 2} : {} }}`, nil)
 	add("assign-then-print", `{{ v = {z: 1, y: 2, x: 3} }}{{ v }}{{ v.y }}`, nil)
+	// adversarial key sets: keys that differ only in case, prefix keys, digits, non-ASCII
+	caseData := func() map[string]any {
+		return map[string]any{"m": map[string]any{"name": 1, "Name": 2, "NAME": 3}, "k": map[string]int{"10": 1, "9": 2, "é": 3, "z": 4, "Z": 5}}
+	}
+	add("print-case-keys", `{{ {id: 1, ID: 2} }}`, nil)
+	add("print-case-keys-3", `{{ {url: 1, URL: 2, Url: 3} }}`, nil)
+	add("dump-case-keys", `@dump({id: 1, ID: 2, iD: 3})`, nil)
+	add("print-prefix-keys", `{{ {a: 1, ab: 2, abc: 3, b: 4} }}`, nil)
+	add("print-data-case-keys", `{{ m }}|{{ k }}`, caseData)
+	add("dump-data-case-keys", `@dump(m, k)`, caseData)
+	add("case-keys-failing", `{{ {id: zz, ID: yy} }}`, nil)
 	// dumping
 	add("dump-literal", `@dump({a: 1, b: "s", c: [1, 2]})`, nil)
 	add("dump-data", `@dump(o, st)`, objData)
@@ -81,6 +92,9 @@ func c14Cases() []c14Prog {
 	tree("three-faulty-files", map[string]string{"a.tw": "{{ ) }}", "b.tw": "{{ ^ }}", "d/c.tw": "@each(x", "index.tw": "ok"}, "index", nil)
 	tree("faulty-file-and-undefined-insert", map[string]string{"a.tw": "{{ 1 + }}", "index.tw": `@use("lay")@insert("nope", "1")`, "lay.tw": `@reserve("a")`}, "index", nil)
 	tree("missing-component-and-faulty-file", map[string]string{"a.tw": `@component("nope")`, "b.tw": "{{ ) }}", "index.tw": "ok"}, "index", nil)
+	tree("component-case-args", map[string]string{"index.tw": `@component("c", {x: zz, X: yy})`, "c.tw": "c"}, "index", nil)
+	tree("case-insert-names", map[string]string{"index.tw": "@use(\"lay\")@insert(\"t\", \"1\")\n@insert(\"T\", \"2\")", "lay.tw": `<l>@reserve("a")</l>`}, "index", nil)
+	tree("case-file-names", map[string]string{"a.tw": "{{ 1 + }}", "A.tw": "@if(x", "index.tw": "ok"}, "index", nil)
 	tree("many-pages-ok", map[string]string{"a.tw": "A", "b.tw": "B", "c.tw": "C", "index.tw": `@component("a")@component("b")@component("c")`}, "index", nil)
 	tree("page-prints-objects", map[string]string{"index.tw": `@use("lay")@insert("a"){{ {k: 1, j: 2, i: 3} }}@end`, "lay.tw": `[@reserve("a")]`}, "index", objData)
 	return out
@@ -145,6 +159,9 @@ func c14Check(cs c14Case) (ok bool, sig, expected, observed string) {
 		}
 		return false, "order-dependent/" + p.name, expected, fmt.Sprintf("%d distinct outcomes: %s", len(ex.outcomes), strings.Join(parts, "  ||  "))
 	}
+	if sig, exp, obs, bad := c14Legs(nil, p, t); bad {
+		return false, sig, exp, obs
+	}
 	return true, "", expected, fmt.Sprintf("1 outcome over %d executions (%d choice points max)", ex.executions, ex.maxPoints)
 }
 
@@ -185,19 +202,54 @@ func c14Run(c *Ctx) {
 				c.Report(sig, int64(id), cs, exp, obs, "")
 			}
 		}
-		// second, supplementary leg: natural (Go-randomised) order, repeated in-process
-		first := ""
-		for r := 0; r < 6; r++ {
-			o := c14Execute(p, t)
-			c.Count("natural_order_repetitions", 1)
-			if r == 0 {
-				first = o
-			} else if o != first {
-				c.Report("order-dependent-natural/"+p.name, int64(1000+id), cs, "identical outcome on every repetition", "two natural-order repetitions differ: "+clip(first, 200)+"  ||  "+clip(o, 200), "found by the supplementary natural-order leg")
-				break
+		if sig, exp, obs, bad := c14Legs(c, p, t); bad {
+			c.Report(sig, int64(1000+id), cs, exp, obs, "found by a supplementary leg")
+		}
+	}
+}
+
+// c14Legs runs the two supplementary legs: (a) the same loaded templates rendered repeatedly in one
+// process with other calls in between, (b) natural (Go-randomised) map order repeated in-process.
+func c14Legs(c *Ctx, p c14Prog, t *Tree) (sig, expected, observed string, bad bool) {
+	count := func(name string) {
+		if c != nil {
+			c.Count(name, 1)
+		}
+	}
+	if t != nil {
+		if tpl, lo := t.load(); lo.Kind == KOut {
+			var data map[string]any
+			if p.data != nil {
+				data = p.data()
+			}
+			firstR := ""
+			for r := 0; r < 4; r++ {
+				o := outcomeKey(render(tpl, p.page, data))
+				count("same-template_repetitions")
+				if r == 0 {
+					firstR = o
+				} else if o != firstR {
+					return "repetition-differs-after-other-calls/" + p.name, "identical outcome on every repetition within one process", "first: " + clip(firstR, 200) + "  ||  later: " + clip(o, 200), true
+				}
+				// other calls between the repetitions
+				textwire.EvaluateString("noise {{ 1 }}", nil)
+				textwire.EvaluateString("{{ undefinedNoise }}", nil)
+				render(tpl, "no-such-template", nil)
+				respond(tpl, "no-such-template", nil)
 			}
 		}
 	}
+	first := ""
+	for r := 0; r < 6; r++ {
+		o := c14Execute(p, t)
+		count("natural_order_repetitions")
+		if r == 0 {
+			first = o
+		} else if o != first {
+			return "order-dependent-natural/" + p.name, "identical outcome on every repetition", "two natural-order repetitions differ: " + clip(first, 200) + "  ||  " + clip(o, 200), true
+		}
+	}
+	return "", "", "", false
 }
 
 func b2i(b bool) int64 {
